@@ -60,17 +60,21 @@ MID = dict(idx='IdxQ3', keys=K2, starts='{1}', sub='SubQ', up='{2}', freeze='{0}
            maxinst=2, pf='Pf12', maxup=1, maxpf=1)
 CORE = dict(idx='IdxC3', keys='{"c"}', starts='{1}', sub='SubZ', up='{2}', freeze='{0}',
             maxinst=2, pf='Pf12', maxup=1, maxpf=1)
+# the alphabet around example len-1: c[-1], c[len-1], c[len], c['c'], list(c),
+# prefetch(2,2), copy, MemDrop, ups[len-1]
+SMALL = dict(idx='IdxS3', keys='{"c"}', starts='{}', sub='SubZ', up='{2}', freeze='{0}',
+             maxinst=2, pf='Pf2', maxup=1, maxpf=1)
 
 TIERS = {
     'quick': {
         'bfs': [
-            ('lazy-n3-d2-full', dict(pars='ParsLazy3x', depth=2, **FULL), None),
-            ('lazy-n3-d3', dict(pars='ParsLazy3', depth=3, **MID), 12000),
-            ('lazy-n3-d4-core', dict(pars='ParsLazy3r', depth=4, **CORE), 12000),
-            ('eager-n3-d3', dict(pars='ParsEager3r', depth=3, **MID), 5000),
+            ('lazy-n3-d2-full', dict(pars='ParsLazy3m', depth=2, **FULL), None),
+            ('lazy-n3-d3', dict(pars='ParsLazy3', depth=3, **MID), None),
+            ('lazy-n3-d4-small', dict(pars='ParsLazy3r', depth=4, **SMALL), None),
+            ('eager-n3-d3-small', dict(pars='ParsEager3r', depth=3, **SMALL), None),
         ],
-        'design': dict(pars='ParsLazy3', depth=4, **CORE),
-        'random': {'count': 3000, 'steps': (10, 30)},
+        'design': dict(pars='ParsLazy3', depth=4, **SMALL),
+        'random': {'count': 1500, 'steps': (10, 30)},
     },
     'thorough': {
         'bfs': [
@@ -83,7 +87,7 @@ TIERS = {
                                      maxup=1, maxpf=1), 100000),
             ('eager-n3-d3', dict(pars='ParsEager3', depth=3, **MID), None),
         ],
-        'design': dict(pars='ParsLazy3', depth=5, **MID),
+        'design': dict(pars='ParsLazy3', depth=5, **CORE),
         'random': {'count': 100000, 'steps': (10, 30)},
     },
 }
@@ -213,9 +217,10 @@ def execute_all(jobs, chunk=200, timeout=3000):
 # ---------------------------------------------------------------------------
 # histories
 
-def enumerate_histories(cfg_text, unfixed=None, timeout=3600):
+def enumerate_histories(cfg_text, unfixed=None, timeout=3600, workers=None):
     d = tlc.prepare(unfixed)
-    r = tlc.run('Cache.tla', 'MC_gen.cfg', workdir=d, cfg_text=cfg_text, timeout=timeout)
+    r = tlc.run('Cache.tla', 'MC_gen.cfg', workdir=d, cfg_text=cfg_text, timeout=timeout,
+                workers=workers)
     if r['rc'] != 0 or r['errors']:
         raise tlc.TlcError('Cache.tla: rc=%s\n%s' % (r['rc'], '\n'.join(r['errors'][:30])))
     recs = [tlc.json_payload(line, 'VEC') for line in r['tagged'].get('VEC', [])]
@@ -317,26 +322,30 @@ def match_finding(par, hist, verdict):
 
 # ---------------------------------------------------------------------------
 
-def design_check(res, kw, info):
+def design_check(kw, workers=None):
     """TLC on the design itself: the repaired model satisfies every invariant;
-    every open defect of this family is re-discovered on the original model."""
+    every open defect of this family is re-discovered on the original model.
+    Returns (tlc stats, info, machinery errors)."""
     open_ids = common.unfixed_ids()
     text = cfg(emit=False, design=True, **kw)
+    info, errors = {}, []
     d = tlc.prepare([u for u in open_ids if u != 'S6'])
-    r = tlc.run('Cache.tla', 'MC_design.cfg', workdir=d, cfg_text=text, timeout=3000)
-    res.add_tlc(r['stats'])
+    r = tlc.run('Cache.tla', 'MC_design.cfg', workdir=d, cfg_text=text, timeout=3000,
+                workers=workers)
+    stats = r['stats']
     info['design_repaired'] = {'rc': r['rc'], 'tlc': r['stats']}
     if r['rc'] != 0 or r['errors']:
-        res.machinery_errors.append('Cache.tla design check (repaired model) failed: rc=%s %s'
-                                    % (r['rc'], ' | '.join(r['errors'][:6])))
+        errors.append('Cache.tla design check (repaired model) failed: rc=%s %s'
+                      % (r['rc'], ' | '.join(r['errors'][:6])))
     if 'S6' in open_ids:
         d = tlc.prepare(open_ids)
-        r = tlc.run('Cache.tla', 'MC_design.cfg', workdir=d, cfg_text=text, timeout=3000)
+        r = tlc.run('Cache.tla', 'MC_design.cfg', workdir=d, cfg_text=text, timeout=3000,
+                    workers=workers)
         refuted = [e for e in r['errors'] if 'is violated' in e]
         info['design_original'] = {'rc': r['rc'], 'refuted': refuted[:3]}
         if not refuted:
-            res.machinery_errors.append(
-                'Cache.tla: the original-behaviour model (S6) is not refuted by TLC')
+            errors.append('Cache.tla: the original-behaviour model (S6) is not refuted by TLC')
+    return stats, info, errors
 
 
 def run(prop, tier):
@@ -347,10 +356,21 @@ def run(prop, tier):
     info = {}
     configs = []
     try:
-        design_check(res, plan['design'], info)
+        # the TLC runs are independent: a few at a time, sharing the cores
+        from concurrent.futures import ThreadPoolExecutor
+        common.scratch()
+        par_runs = min(4, len(plan['bfs']) + 1)
+        w = max(2, common.NCPU // par_runs)
+        with ThreadPoolExecutor(par_runs) as ex:
+            fd = ex.submit(design_check, plan['design'], w)
+            fe = [ex.submit(enumerate_histories, cfg(**kw), None, 3600, w)
+                  for _, kw, _ in plan['bfs']]
+            st, info, errs = fd.result()
+            enumerated = [f.result() for f in fe]
+        res.add_tlc(st)
+        res.machinery_errors += errs
         jobs = {}
-        for name, kw, budget in plan['bfs']:
-            recs, st = enumerate_histories(cfg(**kw))
+        for (name, kw, budget), (recs, st) in zip(plan['bfs'], enumerated):
             res.add_tlc(st)
             flagged = [r for r in recs if r['mv'][0] == 'viol']
             rest = [r for r in recs if r['mv'][0] != 'viol']
